@@ -20,7 +20,7 @@ from ..core import Check, HarnessError, Layer, Outcome, Violation
 # When True, the generator replaces buffered-path fill schedules that produce the D1 shape (multi-byte separator,
 # LimitOverrunError raised while the receive buffer is exactly one byte short of full) and counts them in the class
 # `d1-shape-excluded`.  run_case itself never filters, so the saved replay keeps failing until /repo is repaired.
-EXCLUDE_D1 = os.environ.get("VERIF_C02_EXCLUDE_D1", "1") != "0"  # development override: =0 searches the D1 shape too
+EXCLUDE_D1 = os.environ.get("VERIF_C02_EXCLUDE_D1", "0") == "1"  # D1 is repaired in /repo (1d6eae1): the shape is searched again; =1 re-enables the exclusion
 
 FILLER = 0x7A  # 'z': in no separator of the zoo
 
